@@ -114,6 +114,7 @@ def rules(ck, P):
     mvt.pbf_rules(ck, P)
     mvt.feature_write_rule(ck, P)
     mvt.vtlp_rules(ck, P)
+    mvt.eq_hash_rules(ck, P)
     mvt.total_order_rules(ck, P)
     # ---------------- R-NAMED-LAYER
     run = [b for b in P.bodies if b["q"].endswith("vectortiles_update_properties::Runner::run")]
